@@ -76,13 +76,17 @@ func (st *ProtoVoteStore) ComputeDeltas(indices map[NodeRef]NodeIndex, oldBalanc
 		if vote.Current == (NodeRef{}) || vote.CurrentTargetEpoch < vote.NextTargetEpoch || oldBal != newBal {
 			// Ignore the current or next vote if it is not known in `indices`.
 			// We assume that it is outside of our tree (i.e., pre-finalization) and therefore not interesting.
-			if currentIndex, ok := indices[vote.Current]; ok {
+			currentIndex, hasCurrent := indices[vote.Current]
+			if hasCurrent {
 				deltas[currentIndex] -= SignedGwei(oldBal)
 			}
 			if nextIndex, ok := indices[vote.Next]; ok {
 				deltas[nextIndex] += SignedGwei(newBal)
 				vote.Current = vote.Next
 				vote.CurrentTargetEpoch = vote.NextTargetEpoch
+			} else if hasCurrent {
+				// The next vote is not in the tree: the current vote stays, at the new balance.
+				deltas[currentIndex] += SignedGwei(newBal)
 			}
 		}
 	}
